@@ -8,6 +8,7 @@ package main
 import (
 	"go/types"
 	"strings"
+	"sync"
 
 	"golang.org/x/tools/go/ssa"
 )
@@ -86,8 +87,58 @@ func (e *Exec) copyObj(o *Obj, memo map[*Obj]*Obj, mmemo map[*MapObj]*MapObj) *O
 // message lacks a field declared `required` — the condition under which the
 // real proto.Unmarshal fails with "required field missing". The declarations
 // are read from the generated struct tags of the current source.
+var reqMemo sync.Map
+
+// typeHasRequired: does a message type (transitively) declare a required field?
+func typeHasRequired(t types.Type, depth int) bool {
+	if depth > 8 {
+		return true
+	}
+	key := typeKey(t)
+	if v, ok := reqMemo.Load(key); ok {
+		return v.(bool)
+	}
+	res := false
+	switch u := t.Underlying().(type) {
+	case *types.Pointer:
+		res = typeHasRequired(u.Elem(), depth+1)
+	case *types.Slice:
+		res = typeHasRequired(u.Elem(), depth+1)
+	case *types.Struct:
+		for i := 0; i < u.NumFields() && !res; i++ {
+			tag := u.Tag(i)
+			if u.Field(i).Name() == "extensionFields" {
+				res = true // extension messages are only known at run time
+				break
+			}
+			if !strings.Contains(tag, "protobuf:") {
+				continue
+			}
+			if strings.Contains(tag, ",req,") {
+				res = true
+				break
+			}
+			ft := u.Field(i).Type()
+			if _, isB := ft.Underlying().(*types.Basic); isB {
+				continue
+			}
+			if pt, ok := ft.Underlying().(*types.Pointer); ok {
+				if _, isB := pt.Elem().Underlying().(*types.Basic); isB {
+					continue
+				}
+			}
+			res = typeHasRequired(ft, depth+1)
+		}
+	}
+	reqMemo.Store(key, res)
+	return res
+}
+
 func (e *Exec) requiredMissing(v Value, t types.Type, depth int) bool {
 	if depth > 8 {
+		return false
+	}
+	if !typeHasRequired(t, 0) {
 		return false
 	}
 	switch x := v.(type) {
@@ -95,14 +146,18 @@ func (e *Exec) requiredMissing(v Value, t types.Type, depth int) bool {
 		if x.Obj == nil {
 			return false
 		}
-		if x.NilCond != nil && e.decide(x.NilCond) {
-			return false
-		}
 		pt, ok := t.Underlying().(*types.Pointer)
 		if !ok {
 			return false
 		}
-		return e.requiredMissing(getPath(x.Obj.V, x.Path), pt.Elem(), depth+1)
+		// look at the pointee first: whether the pointer is nil only matters if the pointee lacks something
+		if !e.requiredMissing(getPath(x.Obj.V, x.Path), pt.Elem(), depth+1) {
+			return false
+		}
+		if x.NilCond != nil && e.decide(x.NilCond) {
+			return false
+		}
+		return true
 	case StructV:
 		st, ok := t.Underlying().(*types.Struct)
 		if !ok {
